@@ -224,7 +224,13 @@ fn one_position<C: Autocomplete + Help>(sc: &Scenario, ff: &FaultFree, k: usize,
             fail(rep, "corrupted-line", &format!("{}-{}", sc.class, class), what);
             return;
         }
+        // (line, cursor) pairs: a line from one state with the cursor of another is a corrupted mixture too
+        let allowed_pairs = [(pre.line.clone(), pre.cursor), (ff.posts[j].line.clone(), ff.posts[j].cursor), (vec![], 0usize)];
         let allowed = [pre.line.clone(), ff.posts[j].line.clone(), vec![]];
+        if allowed.contains(&post.line) && !allowed_pairs.contains(&(post.line.clone(), post.cursor)) {
+            fail(rep, "corrupted-line", &format!("{}-cursor-mixture", sc.class), format!("after the failed call the line is {:?} with the cursor at {}; allowed: as before {:?}/{}, as the key leaves it {:?}/{}, or empty", show_bytes(&post.line), post.cursor, show_bytes(&pre.line), pre.cursor, show_bytes(&ff.posts[j].line), ff.posts[j].cursor));
+            return;
+        }
         if !allowed.contains(&post.line) {
             fail(rep, "corrupted-line", sc.class, format!("after the failed call the line is {:?}; allowed: as before {:?}, as the key leaves it {:?}, or empty", show_bytes(&post.line), show_bytes(&pre.line), show_bytes(&ff.posts[j].line)));
             return;
@@ -243,7 +249,13 @@ fn one_position<C: Autocomplete + Help>(sc: &Scenario, ff: &FaultFree, k: usize,
     let line_before = String::from_utf8(before.line.clone()).unwrap_or_default();
     let chars: Vec<char> = line_before.chars().collect();
     let cur = before.cursor.min(chars.len());
-    let expect_line: String = chars[..cur].iter().collect::<String>() + "zz" + &chars[cur..].iter().collect::<String>();
+    // `zz` typed at the cursor, each character accepted only if it still fits the command buffer
+    let mut model = RefEditor::new(sc.cmd);
+    model.set(&line_before, cur);
+    model.insert('z');
+    model.insert('z');
+    let _ = &chars;
+    let expect_line: String = model.text();
     let log0 = rig.proc.log.len();
     for b in b"zz" {
         if let Err(e) = rig.byte(*b) {
